@@ -65,6 +65,9 @@ structure LinkMon where
       was still unanswered)? Then the answer must be Success (C01: an UNSUBACK that says "no such
       subscription" for a filter the session holds means the unsubscribe was ignored) -/
   unsubReqs : List (Nat × List (String × Bool)) := []
+  /-- requested QoS per filter of the SUBSCRIBE packets the link pushed, by packet id; `none`
+      when one of its filters is not acceptable (then the connection is closed instead) -/
+  subReqs : List (Nat × Option (List Nat)) := []
 deriving Repr
 
 structure Saved where
@@ -344,6 +347,14 @@ def noteReply (m : MonState) (l : Nat) (a : Ack) : MonState × Fail :=
     (setL m l lm, match ignored with
       | some ((f, _), _) => some ("c01-unsubscribe-ignored", s!"UNSUBACK {pk} reports that no subscription to {f} existed, but the session holds one and it stays in force")
       | none => none)
+  | .suback pk codes =>
+    -- the broker grants what was asked for: one return code per filter, in order
+    let req := (lm.subReqs.find? (·.1 == pk)).bind (·.2)
+    let lm := { lm with subReqs := lm.subReqs.filter (·.1 != pk) }
+    (setL m l lm, match req with
+      | some qs => if codes == qs then none else
+          some ("c06-suback-codes", s!"SUBACK {pk} carries {codes}, the SUBSCRIBE asked for {qs} (one granted QoS per filter, in order)")
+      | none => none)
   | _ => (setL m l lm, none)
 
 def observeNotif (m : MonState) (l : Nat) (n : Notif) : MonState × Fail :=
@@ -372,7 +383,9 @@ def linkPushes (m : MonState) (l : Nat) (p : Packet) : MonState :=
     else if pb.qos == 2 then setL m l { lm with owed := lm.owed ++ [("pubrec", pb.pkid)] }
     else m
   | .pubrel pk _ => setL m l { lm with owed := lm.owed ++ [("pubcomp", pk)] }
-  | .subscribe pk _ _ => setL m l { lm with owed := lm.owed ++ [("suback", pk)] }
+  | .subscribe pk subId fs =>
+    let ok := fs.all (fun f => validSubscription f.path) && subId != some 0
+    setL m l { lm with owed := lm.owed ++ [("suback", pk)], subReqs := lm.subReqs ++ [(pk, if ok then some (fs.map (·.qos)) else none)] }
   | .unsubscribe pk fs =>
     let pendingUnsub (f : String) := lm.unsubReqs.any (fun r => r.2.any (fun x => x.1 == f && x.2))
     let marked := fs.foldl (fun (acc : List (String × Bool)) f =>
